@@ -7,7 +7,7 @@ import shutil
 import tempfile
 
 from . import simio
-from .engine import SHM, Violation, forked, h64
+from .engine import SHM, HarnessError, Violation, forked, h64
 
 CHUNKS = (8, 24, 64, 256, 8192)
 BUFS = (16, 48, 128, 512, 8192)
@@ -143,7 +143,9 @@ class WorldBase:
         root = self.ctx.root
 
         def child():
-            new = tempfile.mkdtemp(prefix="pmsim-dry-", dir=SHM)
+            new = root + "-dry"          # a sibling the engine removes even if this child dies
+            shutil.rmtree(new, ignore_errors=True)
+            os.makedirs(new)
             try:
                 shutil.copytree(root, new, dirs_exist_ok=True)
                 os.chdir(new)
@@ -159,7 +161,13 @@ class WorldBase:
                 simio.ACTIVE = None
                 os.chdir("/")
                 shutil.rmtree(new, ignore_errors=True)
-        return forked(child, timeout=60.0)
+        try:
+            return forked(child, timeout=60.0)
+        except HarnessError:
+            # the dry run died (a crash inside repository / peer code): the live call will
+            # show it under the journal; place the fault blindly
+            self.ctx.probe("dry_run_died")
+            return 40
 
     def pick_fault_event(self, rng, nev):
         """Bias towards the last events (close) and otherwise uniform inside the op."""
